@@ -167,7 +167,7 @@ func (d *Decoder) ReadList(flag int32) (interface{}, error) {
 	tag, err := getTag(d.reader, flag)
 	if err != nil {
 		hlog.Debugf("reading tag err:%v", err)
-		return nil, nil //ignore
+		return nil, tagReadError(err)
 	}
 
 	if binaryTag(tag) {
